@@ -362,3 +362,51 @@ Proof.
     rewrite <- Hd. apply in_map. exact Hq. }
   split; [exact Hlaw|]. apply external_flows_zero. exact Hlaw.
 Qed.
+
+(* ------------------------------------------------------------ the line the command prints *)
+
+(* after a processed period end the running product starts again at 1 *)
+Lemma perf_loop_reset part ends pre q x : forall r,
+  partition_contains part (pf_date q) = true -> mem ends (pf_date q) = true ->
+  perf_loop part ends r (pre ++ q :: x) = perf_loop part ends r (pre ++ [q]) ++ perf_loop part ends (Some 1) x.
+Proof.
+  intros r Hc Hm. unfold mem in Hm. revert r. induction pre as [|y pre IH]; intros r; cbn [app perf_loop].
+  - rewrite Hc, Hm. cbn [negb app]. reflexivity.
+  - destruct (negb (partition_contains part (pf_date y))); [apply IH|].
+    destruct (existsb (Z.eqb (pf_date y)) ends); [cbn [app]; f_equal|]; apply IH.
+Qed.
+
+(* the records before a period: all before the window, or ending with a processed period end *)
+Definition boundary (part : partition) (ends : list Z) (pre : list perf) : Prop :=
+  Forall (fun x => partition_contains part (pf_date x) = false) pre \/
+  exists pre' q, pre = pre' ++ [q] /\ partition_contains part (pf_date q) = true /\ mem ends (pf_date q) = true.
+
+Lemma perf_loop_boundary part ends pre x :
+  boundary part ends pre ->
+  perf_loop part ends (Some 1) (pre ++ x) = perf_loop part ends (Some 1) pre ++ perf_loop part ends (Some 1) x.
+Proof.
+  intros [H|[pre' [q [-> [Hc Hm]]]]].
+  - rewrite (perf_loop_skip part ends pre x _ H).
+    pose proof (perf_loop_skip part ends pre [] (Some 1) H) as H0. rewrite app_nil_r in H0. rewrite H0. reflexivity.
+  - rewrite <- app_assoc. cbn [app]. apply perf_loop_reset; assumption.
+Qed.
+
+Theorem external_flows_zero_line cfg ds out :
+  returns_fixed cfg ds = COk out ->
+  exists part days perfs,
+    map pf_date perfs = map d_date days /\ out = perf_loop part (end_dates part) (Some 1) perfs /\
+    forall pre l p rest, perfs = pre ++ l ++ p :: rest ->
+      boundary part (end_dates part) pre ->
+      Forall (fun x => partition_contains part (pf_date x) = true /\ mem (end_dates part) (pf_date x) = false) l ->
+      partition_contains part (pf_date p) = true -> mem (end_dates part) (pf_date p) = true ->
+      (forall x, In x days -> In (d_date x) (map pf_date (l ++ [p])) -> untargeted x) ->
+      exists r, In (pf_date p, r) out /\ is_or_undef r 0.
+Proof.
+  intros H. destruct (external_flows_zero_full cfg ds out H) as [b [part [days [vs [fs [_ [_ [_ [_ [_ [Hout [Hdates Hlaw]]]]]]]]]]]].
+  exists part, days, (join_perf (fst vs) fs). split; [exact Hdates|]. split; [exact Hout|].
+  intros pre l p rest Hsplit Hb Hl Hc Hm Hunt.
+  destruct (Hlaw l p (ex_intro _ pre (ex_intro _ rest Hsplit)) Hunt) as [_ Hzero].
+  exists (reported part (end_dates part) l p). split; [|exact Hzero].
+  rewrite Hout, Hsplit, (perf_loop_boundary _ _ _ _ Hb), (period_reported part (end_dates part) l p rest Hl Hc Hm).
+  apply in_or_app. right. left. reflexivity.
+Qed.
